@@ -17,16 +17,16 @@ CHECKS = {
          "Trusted: reference model (kmodel), raw bucket reader. Bounded id/value universes.", "6/C03"),
  "C04": ("exploration", "online structural monitor + cascade/restrict reference model over every fk wiring and hostile ids",
          "Histories over six fk wirings incl. self reference with ids containing quotes, backslashes, keywords; back-reference buckets, dangling references and the surviving-id set after deletes are compared with the model after every transaction.",
-         "Cascade cycles are not driven (unbounded recursion); restrict-inside-cascade order-dependent cases skipped. CascadeCreateUpdate = declared non-enforcement on delete.", "6/C04"),
+         "Cascade closures include reference cycles and self references. Restrict-inside-cascade order-dependent cases skipped. CascadeCreateUpdate = declared non-enforcement on delete.", "6/C04"),
  "C05": ("exploration", "bounded-exhaustive SetLinks pairs + random link/ref-count histories with structural monitor",
          "Every (current set, requested list) pair over a 4-element universe (thorough: all, quick: sample) plus random histories; both sides of every link / count compared raw and through the API after each transaction.",
-         "Negative SetLinkCount values are not generated (unspecified).", "6/C05"),
+         "Counts that are no counts (negative, beyond int32) may be refused or read as a removal, but must never be stored (model-free part); the model-based histories use counts 0-3.", "6/C05"),
  "C06": ("exploration", "full-file scan for the deleted id after every committed delete, then re-create and re-check against the model",
          "After each committed delete (incl. cascades) an independent scanner searches every key and value of the file for the id (raw and type-tagged); the id is then re-created and must behave as new.",
          "Ids are disjoint from all value pools so a hit is a real trace. CascadeCreateUpdate referrers excluded (declared behaviour).", "6/C06"),
  "C07": ("fault_enumeration", "fault injection at every write primitive and every failure kind x position; dump equality + callback counters",
          "For each transaction body every failure kind is injected at every position, including a storage error at the n-th boltz write primitive for n=1..W via the verif hook; the caller must get an error, the dump must be unchanged, no listener/commit action may run, and the failing store call itself must return non-nil.",
-         "Trusted: the verif hook placement (boltz write primitives); bbolt commit failures are out of scope.", "6/C07"),
+         "Also covers the migration manager as a transaction body and one MutateContext carried through several transactions (incl. overlapping commit actions and a panicking body). Trusted: the verif hook placement (boltz write primitives); bbolt commit failures are out of scope.", "6/C07"),
  "C08": ("exploration", "offline checker over recorded event log vs model-expected delivery multiset (race build)",
          "All listener registration styles record deliveries; after every transaction the multiset of (listener, store, type, id, state) is compared with the model's expectation; deliveries before commit and duplicate/missing commit actions are violations.",
          "Quiescence by goroutine-count baseline; extended child store judged only for child-created entities.", "6/C08"),
@@ -41,7 +41,7 @@ CHECKS = {
          "Alphabet and length bound; lit() escapes as the statement describes.", "6/C11"),
  "C12": ("exploration", "truth tables of all boolean skeletons up to N atoms vs precedence-climbing oracle; respelling metamorphic",
          "Every and/or/not/parenthesis skeleton up to N atoms is parsed and its full truth table compared with an oracle computed from the token sequence; case/whitespace/parenthesis respellings must not change results.",
-         "Bare `not` adjacent to and/or is not judged (statement fixes only not (P)).", "6/C12"),
+         "Bare `not` adjacent to and/or is not judged (statement fixes only not (P)); bool literals occur as operands.", "6/C12"),
  "C13": ("exploration", "write in one transaction / read in a later one over boundary values; codec injectivity by hash set",
          "Every setter/getter pair with boundary values, nested containers, all checker subsets; compound-key codec round trip and pairwise-distinct encodings.",
          "Reserved list-size key excluded.", "6/C13"),
@@ -50,16 +50,16 @@ CHECKS = {
          "Universe of 8 byte strings incl. empty string and shared prefixes.", "6/C14"),
  "C15": ("exploration", "histories through parent, child and extended child stores with structural monitor",
          "Creates/updates/patches/deletes through all three stores; visibility through each store, shared fields, parent indexes and no-trace deletes compared with the model after every transaction.",
-         "Creating through a child store over an existing plain parent is not generated (undefined).", "6/C15"),
+         "A create through a child store over an entity without data in that store is read as an update of the shared part plus new child data (what the repaired code does). A model-free part covers two sibling child stores (plain / extended, with a link collection of its own).", "6/C15"),
  "C16": ("exploration", "histories over context kind x entity kind x op with model outcomes and dump equality on refusals",
          "Every combination of system/ordinary context and entity incl. flag flips; outcome vs model; refused transactions leave the dump unchanged; flag never changes.",
          "", "6/C16"),
  "C17": ("exploration", "dump equality after restore; stamped-state readers + porcupine register linearizability under the race detector",
          "Sequential: snapshot by every route, mutate, restore, dumps must be equal modulo the two markers; concurrent: readers verify whole-state stamps during restores, history checked with porcupine, race detector on.",
-         "Interleavings sampled; Snapshot concurrent with restore not driven (recursive RLock hazard).", "6/C17"),
+         "Interleavings sampled. Snapshot / RootBucket inside transactions run next to the restores; bounded progress (no client completes anything for 20 s) is the verdict for hangs, with the goroutine dump as witness.", "6/C17"),
  "C18": ("exploration", "stamped-state readers vs writer under the Go race detector; helper hammering",
          "Readers verify every query/index/link read equals state(g) of one generation; race reports in openziti/storage or antlr are violations.",
-         "Interleavings sampled; compiled queries not shared between goroutines.", "6/C18"),
+         "Interleavings sampled; compiled queries are not shared between goroutines (not claimed); providers, role slices and symbol tables are.", "6/C18"),
  "C19": ("exploration", "three-way differential: ObjectStore vs bolt store vs reference evaluator over the paging boundary grid",
          "Same collections in both stores, same queries; objects, order and count compared pairwise and with the oracle.",
          "Scalar symbols only.", "6/C19"),
